@@ -426,8 +426,14 @@ pub fn run(ctx: &mut Ctx) {
         let pool = build_pool(compressed);
         let ka = vec![size_byte(compressed, 4), 3, 0, 0];
         let big: Vec<Vec<u8>> = pool.by_type.iter().map(|(_, f)| f.clone()).filter(|f| f.len() >= 100).collect();
-        let any: Vec<Vec<u8>> = pool.by_type.iter().map(|(_, f)| f.clone()).collect();
+        let mut any: Vec<Vec<u8>> = pool.by_type.iter().map(|(_, f)| f.clone()).collect();
+        // texts that fill their frame exactly (no NUL inside the frame): what follows in the datagram must not leak into them
+        let exact = exact_text_frames(compressed);
+        any.extend(exact.iter().cloned());
+        any.extend(exact.iter().cloned());
         for fl in [Flavour::Blocking, Flavour::Tokio] {
+            let dg: Vec<Vec<Vec<u8>>> = exact.iter().map(|e| vec![e.clone(), vec![size_byte(compressed, 4), 3, 9, 3], e.clone()]).collect();
+            session_case(ctx, fl, compressed, &dg, "text-to-end-of-frame");
             // one packet per datagram, every kind
             let dg: Vec<Vec<Vec<u8>>> = any.iter().map(|f| vec![f.clone()]).collect();
             session_case(ctx, fl, compressed, &dg, "every-kind");
